@@ -88,4 +88,216 @@ theorem groupOf_ok {w : World} (E : Env w) {T : Nat} {D : DigestFn 4} (hD : ∀ 
   · rw [hsz, hsize]; simp only [maxUint32, mapDataSlabPrefixSize]; omega
   · intro hr; cases hr
 
+/-! ### 3. one index slab -/
+
+/-- the first-level digests of a subtree are digests of keys, hence below 2⁶⁴ -/
+theorem digests0_lt {r T : Nat} {D : DigestFn (r + 1)} (hD : ∀ p, ∀ h ∈ D.dg p, h < 2 ^ 64) :
+    ∀ (d : Nat) (top : Bool) (t : MTree r d), MTreeInv T D d top t → ∀ h ∈ MTree.digests0 d t, h < 2 ^ 64
+  | 0, top, (s : MDataSlab r), hinv, h, hh => by
+    rw [E2EM.mdigests0_zero] at hh
+    exact E2EM.hkeys_lt hD r 0 [] s.elems ((mtreeInv_zero_iff T D top s).mp hinv).elems_inv rfl h hh
+  | d + 1, top, (m : MMetaSlab (MTree r d)), hinv, h, hh => by
+    obtain ⟨hm, _⟩ := (mtreeInv_succ_iff T D d top m).mp hinv
+    rw [E2EM.mdigests0_succ] at hh
+    obtain ⟨c, hc, hhc⟩ := List.mem_flatMap.1 hh
+    exact digests0_lt hD d false c (hm.2.2.2.2.1 c hc) h hhc
+
+/-- AN INDEX SLAB of the tree of a standalone map: from `MTreeInv` and the 64-bit widths of the
+    slab's address and of the children's slab indices, `MapMetaOK`; the codec's size is the size in
+    the header. -/
+theorem mindex_ok {r T : Nat} {D : DigestFn (r + 1)} (hT : legalThreshold T = true)
+    (hD : ∀ p, ∀ h ∈ D.dg p, h < 2 ^ 64) (d : Nat) (top : Bool) (m : MMetaSlab (MTree r d))
+    (hinv : MTreeInv T D (d + 1) top m) (haddr : m.hdr.id.addr < 2 ^ 64)
+    (hcids : ∀ c ∈ m.children, (MTree.hdr d c).id.idx < 2 ^ 64)
+    (x : Option MapExtra) (hxv : ∀ y, x = some y → validMapExtra y) :
+    MapMetaOK { id := m.hdr.id, extra := x, childHdrs := m.childHdrs.map mchildHdrOf } ∧
+      (MapMeta.mk m.hdr.id x (m.childHdrs.map mchildHdrOf)).size = m.hdr.size := by
+  obtain ⟨hm, hmax, _, _⟩ := (mtreeInv_succ_iff T D d top m).mp hinv
+  obtain ⟨_, m2, m3, _, m5, m6, m7, _⟩ := hm
+  have hmx := thr_le' hT
+  have hlen : (m.childHdrs.map mchildHdrOf).length = m.children.length := by
+    rw [List.length_map, m2, List.length_map]
+  refine ⟨⟨haddr, ?_, ?_, hxv⟩, ?_⟩
+  · intro ch hch
+    simp only at hch ⊢
+    obtain ⟨h0, hh0, rfl⟩ := List.mem_map.1 hch
+    rw [m2] at hh0
+    obtain ⟨c, hc, rfl⟩ := List.mem_map.1 hh0
+    refine ⟨m6 c hc, hcids c hc, ?_, ?_⟩
+    · show (MTree.hdr d c).firstKey < 2 ^ 64
+      rw [m7 c hc]
+      exact E2EM.headD_lt (digests0_lt hD d false c (m5 c hc))
+    · show (MTree.hdr d c).size < 65536
+      have := E2EM.hdr_size_le d false c (m5 c hc)
+      omega
+  · show (m.childHdrs.map mchildHdrOf).length < 65536
+    rw [hlen]
+    simp only [mapMetaDataSlabPrefixSize, mapSlabHeaderSize] at m3
+    omega
+  · simp only [MapMeta.size]
+    rw [hlen, m3]
+
+/-! ### 4. the tree -/
+
+/-- what is assumed of a stored key / value pair: the value is a good element of the world, the key
+    a value of the harness -/
+def KVGood (w : World) (p : MKey × Elem) : Prop := Good w p.2 ∧ validElem ⟨p.1.size, .val p.1.pay⟩
+
+/-- the values / keys stored locally in `elements` are values / keys of its pair list -/
+theorem local_sub_toList : ∀ (r : Nat) (e : MElems r),
+    (∀ v ∈ C10Persist.localVals r e, ∃ p ∈ (MElems.ops r).toList e, p.2 = v) ∧
+    (∀ k ∈ localKeys r e, ∃ p ∈ (MElems.ops r).toList e, p.1 = k)
+  | 0, (se : SingleElems) => by
+    constructor
+    · intro v hv
+      rw [localVals_zero] at hv
+      obtain ⟨x, hx, rfl⟩ := List.mem_map.1 hv
+      exact ⟨(x.key, x.val), by rw [E2EM.ops_toList_zero]; exact List.mem_map.2 ⟨x, hx, rfl⟩, rfl⟩
+    · intro k hk
+      rw [localKeys_zero] at hk
+      obtain ⟨x, hx, rfl⟩ := List.mem_map.1 hk
+      exact ⟨(x.key, x.val), by rw [E2EM.ops_toList_zero]; exact List.mem_map.2 ⟨x, hx, rfl⟩, rfl⟩
+  | r + 1, (he : HkeyElems (MElems r)) => by
+    constructor
+    · intro v hv
+      obtain ⟨el, hel, hv'⟩ := List.mem_flatMap.1 hv
+      cases el with
+      | single x =>
+        have : v = x.val := by simpa using hv'
+        subst this
+        exact ⟨(x.key, x.val), by
+          rw [E2EM.ops_toList_succ]; exact List.mem_flatMap.2 ⟨_, hel, by simp [MElemF.toList]⟩, rfl⟩
+      | inl g =>
+        obtain ⟨p, hp, rfl⟩ := (local_sub_toList r g).1 v hv'
+        exact ⟨p, by rw [E2EM.ops_toList_succ]; exact List.mem_flatMap.2 ⟨_, hel, hp⟩, rfl⟩
+      | ext id sz s => cases hv'
+    · intro k hk
+      obtain ⟨el, hel, hk'⟩ := List.mem_flatMap.1 hk
+      cases el with
+      | single x =>
+        have : k = x.key := by simpa using hk'
+        subst this
+        exact ⟨(x.key, x.val), by
+          rw [E2EM.ops_toList_succ]; exact List.mem_flatMap.2 ⟨_, hel, by simp [MElemF.toList]⟩, rfl⟩
+      | inl g =>
+        obtain ⟨p, hp, rfl⟩ := (local_sub_toList r g).2 k hk'
+        exact ⟨p, by rw [E2EM.ops_toList_succ]; exact List.mem_flatMap.2 ⟨_, hel, hp⟩, rfl⟩
+      | ext id sz s => cases hk'
+
+theorem localVals_good {w : World} {r : Nat} {e : MElems r} (h : ∀ p ∈ (MElems.ops r).toList e, KVGood w p) :
+    ∀ v ∈ C10Persist.localVals r e, Good w v := by
+  intro v hv
+  obtain ⟨p, hp, rfl⟩ := (local_sub_toList r e).1 v hv
+  exact (h p hp).1
+
+theorem localKeys_valid {w : World} {r : Nat} {e : MElems r} (h : ∀ p ∈ (MElems.ops r).toList e, KVGood w p) :
+    ∀ k ∈ localKeys r e, validElem ⟨k.size, .val k.pay⟩ := by
+  intro k hk
+  obtain ⟨p, hp, rfl⟩ := (local_sub_toList r e).2 k hk
+  exact (h p hp).2
+
+/-- the extra data of the World model (type, count, seed), 64 bits each -/
+theorem validMapExtra_mxOf (x : Option (Nat × Nat × Nat)) (hxo : E2EM.XOk x) : ∀ y, mxOf x = some y → validMapExtra y := by
+  intro y hy
+  cases x with
+  | none => cases hy
+  | some p =>
+    simp only [mxOf, Option.map_some, Option.some.injEq] at hy
+    subst hy
+    exact hxo
+
+theorem mxOf_isSome (x : Option (Nat × Nat × Nat)) : (mxOf x).isSome = x.isSome := by
+  cases x <;> rfl
+
+/-- THE EXTERNAL COLLISION-GROUP SLABS referenced from the first level of a data slab (standalone or
+    the root of an inlined map) meet the goal. -/
+theorem groups_goal {w : World} (E : Env w) {T : Nat} {D : DigestFn 4} (hD : ∀ p, ∀ h ∈ D.dg p, h < 2 ^ 64)
+    (s : MDataSlab 3) (hinv : ElemsInv T 4 D 4 0 [] s.elems)
+    (hkv : ∀ p ∈ HkeyElems.toList (MElems.ops 3) s.elems, KVGood w p) :
+    ∀ p ∈ s.groupSlabs, SlabGoal w p.1 (WSlab.map p.2 none) := by
+  intro p hp
+  unfold MDataSlab.groupSlabs at hp
+  obtain ⟨el, hel, hpe⟩ := List.mem_filterMap.1 hp
+  cases el with
+  | single x => cases hpe
+  | inl g => cases hpe
+  | ext id sz gs =>
+    simp only [Option.some.injEq] at hpe
+    subst hpe
+    obtain ⟨_, _, h3, _, _, h6⟩ := hinv
+    obtain ⟨i, hkd, e1, e2⟩ := idx_of_mem h3 hel
+    obtain ⟨_, _, e3, e4, _, e6, e7, _⟩ := h6 i hkd _ e1 e2
+    have hsub : ∀ q ∈ (MElems.ops 3).toList gs.elems, KVGood w q := by
+      intro q hq
+      apply hkv
+      exact List.mem_flatMap.2 ⟨_, hel, hq⟩
+    intro hside hfit
+    have := groupOf_ok E hD gs hkd e6 e7 e4 hfit (localVals_good hsub) (localKeys_valid hsub) hside
+    exact ⟨this.1, this.2.1, this.2.2.1, this.2.2.2.trans e3⟩
+
+/-- A DATA SLAB of the tree with its extra data (present for the root) meets the goal. -/
+theorem data_goal {w : World} (E : Env w) (hT : legalThreshold w.T = true) {D : DigestFn 4}
+    (hD : ∀ p, ∀ h ∈ D.dg p, h < 2 ^ 64) (s : MDataSlab 3) (top : Bool) (hd : MDataInv w.T D top s)
+    (hni : s.inlined = false) (hkv : ∀ p ∈ MTree.toList 0 s, KVGood w p)
+    (hids : ∀ id ∈ AList.keys (MTree.slabs 0 s), id.addr < 2 ^ 64 ∧ id.idx < 2 ^ 64)
+    (hnext : validNext s.next) (hrn : top = true → s.next = SlabID.undef)
+    (x : Option (Nat × Nat × Nat)) (hx : x.isSome = top) (hxo : E2EM.XOk x) :
+    SlabGoal w s.hdr.id (WSlab.map (.data s) x) := by
+  intro hside _
+  have hkv' : ∀ p ∈ (MElems.ops 4).toList s.elems, KVGood w p := hkv
+  refine mdataOf_ok E hT hD s top hd hni (localVals_good hkv') (localKeys_valid hkv') ?_ hnext hrn (mxOf x)
+    (by rw [mxOf_isSome, hx]) (validMapExtra_mxOf x hxo) hside
+  intro id sz g hel
+  apply hids
+  rw [mslabs_zero, keys_cons']
+  apply List.mem_cons_of_mem
+  rw [keys_groupSlabs]
+  exact List.mem_filterMap.2 ⟨_, hel, rfl⟩
+
+/-- AN INDEX SLAB of the tree with its extra data (present for the root) meets the goal. -/
+theorem index_goal {w : World} (hT : legalThreshold w.T = true) {D : DigestFn 4}
+    (hD : ∀ p, ∀ h ∈ D.dg p, h < 2 ^ 64) (d : Nat) (top : Bool) (m : MMetaSlab (MTree 3 d))
+    (hinv : MTreeInv w.T D (d + 1) top m)
+    (hids : ∀ id ∈ AList.keys (MTree.slabs (d + 1) m), id.addr < 2 ^ 64 ∧ id.idx < 2 ^ 64)
+    (x : Option (Nat × Nat × Nat)) (hxo : E2EM.XOk x) :
+    SlabGoal w m.hdr.id (WSlab.map (.index m.hdr m.childHdrs m.root) x) := by
+  intro _ _
+  have hroot := hids m.hdr.id (by rw [mslabs_succ, keys_cons']; exact List.mem_cons_self)
+  obtain ⟨h1, h2⟩ := mindex_ok hT hD d top m hinv hroot.1 (fun c hc => (hids _ (by
+      rw [mslabs_succ, keys_cons']
+      apply List.mem_cons_of_mem
+      obtain ⟨v, hv⟩ := (mem_keys_iff _ _).1 (hdr_id_mem_keys d c)
+      exact mem_keys_of_mem (List.mem_flatMap.2 ⟨c, hc, hv⟩))).2) (mxOf x) (validMapExtra_mxOf x hxo)
+  exact ⟨h1, trivial, h2, rfl⟩
+
+/-- EVERY SLAB OF A NON-ROOT SUBTREE meets the goal (no extra data anywhere). -/
+theorem subtree_goal {w : World} (E : Env w) (hT : legalThreshold w.T = true) {D : DigestFn 4}
+    (hD : ∀ p, ∀ h ∈ D.dg p, h < 2 ^ 64) :
+    ∀ (d : Nat) (t : MTree 3 d), MTreeInv w.T D d false t →
+      (∀ p ∈ MTree.toList d t, KVGood w p) →
+      (∀ id ∈ AList.keys (MTree.slabs d t), id.addr < 2 ^ 64 ∧ id.idx < 2 ^ 64) →
+      (∀ s ∈ MTree.leaves d t, validNext s.next) →
+      ∀ p ∈ MTree.slabs d t, SlabGoal w p.1 (WSlab.map p.2 none)
+  | 0, (s : MDataSlab 3), hinv, hkv, hids, hnx, p, hp => by
+    have hd := (mtreeInv_zero_iff w.T D false s).mp hinv
+    rw [mslabs_zero] at hp
+    rcases List.mem_cons.1 hp with rfl | hp
+    · exact data_goal E hT hD s false hd (treeInl_of_nontop 0 s hinv) hkv hids
+        (hnx s (by rw [E2EM.mleaves_zero]; simp)) (fun h => by cases h) none rfl trivial
+    · exact groups_goal E hD s hd.elems_inv hkv p hp
+  | d + 1, (m : MMetaSlab (MTree 3 d)), hinv, hkv, hids, hnx, p, hp => by
+    obtain ⟨hm, _⟩ := (mtreeInv_succ_iff w.T D d false m).mp hinv
+    rw [mslabs_succ] at hp
+    rcases List.mem_cons.1 hp with rfl | hp
+    · exact index_goal hT hD d false m hinv hids none trivial
+    · obtain ⟨c, hc, hpc⟩ := List.mem_flatMap.1 hp
+      refine subtree_goal E hT hD d c (hm.2.2.2.2.1 c hc)
+        (fun q hq => hkv q (by rw [E2EM.mtoList_succ]; exact List.mem_flatMap.2 ⟨c, hc, hq⟩))
+        (fun id hid => hids id ?_)
+        (fun s hs => hnx s (by rw [E2EM.mleaves_succ]; exact List.mem_flatMap.2 ⟨c, hc, hs⟩)) p hpc
+      rw [mslabs_succ, keys_cons']
+      apply List.mem_cons_of_mem
+      obtain ⟨v, hv⟩ := (mem_keys_iff _ id).1 hid
+      exact mem_keys_of_mem (List.mem_flatMap.2 ⟨c, hc, hv⟩)
+
 end Atree.WC
